@@ -181,6 +181,7 @@ class ConsumerRun(object):
         self.mutated_during_download = False
         self.aborted = False
         self.waited = 0           # reads that had to wait for a milestone
+        self.max_pending = 0      # largest number of entries seen on the overwrite heap
         self.file_bad = False     # a file-level oracle failure was already reported for this history
         self.read_ds = set()      # id() of the Deferreds returned by consumer.read
         self._keep = []           # keeps them alive so the ids stay unique
@@ -213,6 +214,7 @@ class ConsumerRun(object):
     def _snap(self):
         c = self.c
         self.trace.append((c.current_size, c.download_size, c.downloaded, c.done_status is not None, len(c.milestones)))
+        self.max_pending = max(self.max_pending, len(c.overwrites))
 
     def _check_file(self, after):
         """I1 on the implementation: every client-owned offset holds the reference byte;
@@ -558,6 +560,88 @@ def part_a(ctx, tmpdir):
                      correspondence=CORR_A)
     ctx.trace(len(terms) - len(bad))
 
+
+# --------------------------------------------------------------------------
+# Part C: many disjoint client writes pending ahead of the download
+# --------------------------------------------------------------------------
+def gen_scattered(r, run):
+    """A client patches 8..22 small records scattered over the file right after opening it
+    (download frontier at or near 0), in random order; then the old contents arrive in small
+    pieces.  This is the shape that exercises the overwrite heap as a heap: many disjoint
+    entries pending at once, pieces that end inside / between / across them."""
+    N = run.d0
+    if r.random() < 0.3 and N > 20:
+        run.apply(("chunk", r.randrange(1, 12)))          # the download has barely started
+    k = r.randrange(8, 23)
+    cuts = sorted(r.sample(range(run.pos + 1, N + 6), min(2 * k, N + 5 - run.pos - 1)))
+    ivs = []
+    for j in range(0, len(cuts) - 1, 2):
+        a, b = cuts[j], cuts[j + 1]
+        b = min(b, a + r.choice([1, 2, 3, 5, 8, 13]))     # short records, gaps in between
+        ivs.append((a, b))
+    r.shuffle(ivs)
+    for (a, b) in ivs:
+        run.apply(("ow", a, rbytes(r, b - a)))
+        if r.random() < 0.05:
+            run.apply(("ow", a, rbytes(r, 1)))               # a duplicate start on the heap
+    n_reads = 0
+    while run.pos < len(run.O) and not run.aborted:
+        rem = len(run.O) - run.pos
+        run.apply(("chunk", min(rem, r.choice([1, 2, 3, 5, 8, 13, 21, 34, r.randrange(1, 40)]))))
+        x = r.random()
+        if x < 0.12 and n_reads < 6 and not run.outstanding():
+            run.apply(("read", r.randrange(0, max(1, run.c.current_size)), r.choice([5, 30, 200])))
+            n_reads += 1
+        elif x < 0.17 and not run.outstanding():
+            a = r.randrange(0, N + 4)
+            run.apply(("ow", a, rbytes(r, r.choice([1, 2, 5]))))
+        elif x < 0.35:
+            run.apply(("turn",))
+    if not run.aborted:
+        run.apply(("finish",))
+        run.apply(("turn",))
+        run.apply(("read", 0, len(run.ref.b) + 3))
+        run.apply(("turn",))
+
+
+def part_c(ctx, tmpdir):
+    ctx.correspondence(CORR_A)
+    terms, runs = [], []
+    seen = set()
+    n = ctx.n(260, 4000)
+    n_model = ctx.n(40, 400)            # these also go through the Coq model (bigger literals)
+    for i in range(n):
+        r = ctx.rng("C", i)
+        d0 = r.choice([90, 120, 160, 200, 260, r.randrange(80, 300)]) if i >= n_model else r.choice([80, 100, MAXLEN])
+        O = rbytes(r, d0)
+        kind = "plain" if i % 2 == 0 else "encrypted"
+        drain()
+        run = ConsumerRun(O, d0, kind, tmpdir)
+        gen_scattered(r, run)
+        run.wrap_up()
+        drain()
+        ctx.case((O, tuple(run.ops)), kind="consumer-%s-scattered" % kind)
+        ctx.count("scattered-pending>=10", 1 if run.max_pending >= 10 else 0)
+        _report(ctx, run, seen)
+        if i < 1:
+            ctx.sample(run.case_record())
+        if i < n_model and not run.aborted:
+            terms.append(consumer_term(run))
+            runs.append(run)
+        try:
+            run.c.close()
+        except Exception:
+            pass
+        drain()
+    bad = ctx.coq_check(IMPORTS, terms, tag="c39c", shard=max(20, (len(terms) + 3) // 4))
+    for ix in bad[:10]:
+        run = runs[ix]
+        ctx.mismatch("consumer-model-vs-impl", "Coq model of OverwriteableFileConsumer and the implementation disagree on a scattered-writes history",
+                     case=run.case_record(),
+                     observed={"outs": [(i, r[0], r[1].hex() if r[0] == "data" else "") for i, r in run.outs], "trace": run.trace,
+                               "overwrites": sorted(run.c.overwrites)},
+                     correspondence=CORR_A)
+    ctx.trace(len(terms) - len(bad))
 
 
 # --------------------------------------------------------------------------
@@ -1009,6 +1093,7 @@ def run(ctx):
     tempfile.tempdir = tmpdir
     try:
         part_a(ctx, tmpdir)
+        part_c(ctx, tmpdir)
         part_b(ctx)
     finally:
         tempfile.tempdir = old
